@@ -341,6 +341,22 @@ class Ledger:
         self.features.add("err-posting-amount-required")
         self.ended = True
 
+    def end_cancelling_commodities(self):
+        """a posting amount in which two or more commodities cancel out: `(20 A - 20 A + 10 B - 10 B)` keeps two zero
+        entries; whatever is done with it (rejected today) must not depend on which entry a hash map yields first"""
+        r = self.rng
+        cs = r.sample(self.comms, min(len(self.comms), r.randint(2, 3)))
+        terms = []
+        for c in cs:
+            k = r.randint(1, 50)
+            terms += ["%d %s" % (k, c), "-%d %s" % (k, c)]
+        e = terms[0] + "".join((" - " + t[1:]) if t.startswith("-") else (" + " + t) for t in terms[1:])
+        tail = r.choice(["", " @ 1.1 %s" % cs[0], " = 0"])
+        self.txn([posting(r.choice(self.accounts), "(%s)%s" % (e, tail)), posting("Equity:Adjustments", "100 %s" % cs[0]),
+                  posting("Equity:Opening")])
+        self.features.add("err-cancelling-commodities")
+        self.ended = True
+
     def end_undeducible(self):
         r = self.rng
         self.txn([posting(r.choice(self.accounts)), posting(r.choice(self.accounts)), posting("Equity:Opening", "1 USD")])
@@ -360,7 +376,7 @@ class Ledger:
         if r.random() < fail_ratio:
             r.choice([self.end_unbalanced_multi, self.end_unbalanced_multi, self.end_unbalanced_same_sign,
                       self.end_assertion_fail, self.end_assertion_fail, self.end_zero_assign_multi,
-                      self.end_posting_amount_required, self.end_undeducible])()
+                      self.end_posting_amount_required, self.end_undeducible, self.end_cancelling_commodities])()
         return head
 
 
